@@ -59,6 +59,8 @@ def run_case(ctx, rng, focus, forced=None):
         cmds = [c for c in cmds if c not in sum((cfg["sequences"][s] for s in seqs), [])]
         expected_cmds = sum((cfg["sequences"][s] for s in seqs), []) + cmds
     if not expected_cmds: cmds = ["build"]; expected_cmds = ["build"]
+    plain = bool(forced and forced.get("plain"))      # one command, everything defined and succeeding
+    if plain: seqs, cmds, expected_cmds = [], ["build"], ["build"]
     mode = rng.choice(["all", "changed", "explicit", "deps", "deps"] if focus != "C05" else ["all", "changed", "explicit", "deps", "deps", "deps"])
     if forced: mode = forced["mode"]
     fou = rng.random() < 0.4
@@ -66,7 +68,7 @@ def run_case(ctx, rng, focus, forced=None):
     for c in CMDS:
         for p in paths:
             r = rng.random()
-            kinds[(c, p)] = "undef" if r < 0.1 else "noexec" if r < 0.13 else "noexec_link" if r < 0.16 else "exec"
+            kinds[(c, p)] = "exec" if plain else "undef" if r < 0.1 else "noexec" if r < 0.13 else "noexec_link" if r < 0.16 else "exec"
     rr = runscen.RunRepo(ctx, cfg, kinds=kinds, commands=CMDS)
     try:
         args = []
@@ -104,7 +106,7 @@ def run_case(ctx, rng, focus, forced=None):
         timing = rng.choice(["deps_slower", "deps_slower", "random", "zero"])
         script = {"*": {}}
         fail_at = set()
-        if rng.random() < (0.75 if focus == "C06" else 0.35):
+        if rng.random() < (0.75 if focus == "C06" else 0.35) and not plain:
             for _ in range(rng.choice([1, 1, 2])):
                 fail_at.add((rng.choice(expected_cmds), rng.choice(selected) if selected else None))
         codes = {}
@@ -112,6 +114,7 @@ def run_case(ctx, rng, focus, forced=None):
             for t in selected:
                 ms = {"deps_slower": 25 * (maxd - depth.get(t, 0)) + rng.randint(0, 15), "random": rng.randint(0, 90), "zero": 0}[timing]
                 ins = {"sleep_ms": ms}
+                if forced and "%s|%s" % (c, t) in forced.get("sleep_ms", {}): ins["sleep_ms"] = forced["sleep_ms"]["%s|%s" % (c, t)]
                 if (c, t) in fail_at:
                     if focus == "C06" and rng.random() < 0.3:
                         # the executable does not exit at all: it is killed by a signal (no exit code; 256+signal in the model)
@@ -129,7 +132,7 @@ def run_case(ctx, rng, focus, forced=None):
                     sb = rng.choice(sibs)
                     script["%s|%s" % (fc, ft)]["sleep_ms"] = 0
                     script["%s|%s" % (fc, sb)] = {"sleep_ms": 400, "detach_output": True}
-        if focus == "C04" and selected and rng.random() < 0.4:
+        if focus == "C04" and selected and rng.random() < 0.4 and not plain:
             # daemon-style executables: close both output pipes at once and keep running for a second - "has exited" is
             # about the process, not about its pipes, so nothing at a later position may start before they are gone
             for _ in range(rng.choice([1, 2])):
@@ -138,12 +141,32 @@ def run_case(ctx, rng, focus, forced=None):
                     script[k] = {"sleep_ms": rng.choice([700, 900, 1200]), "detach_output": True}
             ctx.count("detached_long_runner")
         if any(isinstance(v, dict) and "signal" in v for v in script.values()): ctx.count("failure_by_signal")
+        eff_kinds, flip = kinds, None
+        if focus == "C06" and len(expected_cmds) >= 2 and selected and rng.random() < 0.35:
+            # the execute permission of a command file changes DURING the run: a task of the first command flips the x bit of a file
+            # that the last command needs.  What counts is the state when that task is due, not when the plan was made.
+            c1, c2 = expected_cmds[0], expected_cmds[-1]
+            actors = [t for t in selected if kinds.get((c1, t), "exec") == "exec" and (c1, t) not in fail_at]
+            victims = [t for t in selected if kinds.get((c2, t), "exec") in ("exec", "noexec")]
+            if actors and victims:
+                a, vt = rng.choice(actors), rng.choice(victims)
+                tcfg = next(t for t in cfg["targets"] if t["path"] == vt)
+                cdir = os.path.join(rr.repo, tcfg.get("commands", {}).get("path") or os.path.join(vt, "monorail", "cmd"))
+                vf = os.path.join(cdir, c2)
+                was = kinds.get((c2, vt), "exec")
+                if os.path.lexists(vf): os.remove(vf)
+                shutil.copy(vlib.BIN_VHELPER, vf); os.chmod(vf, 0o755 if was == "exec" else 0o644)      # a regular file: its own mode bits
+                script["%s|%s" % (c1, a)]["chmod"] = [[vf, 0o644 if was == "exec" else 0o755]]
+                flip = (c1, a, c2, vt, "noexec" if was == "exec" else "exec")
+                ctx.count("x_bit_%s_during_run" % ("removed" if was == "exec" else "added"))
         rr.script = script; rr.write_script()
         rc, out, err, raw = rr.run(*args)
         traces = rr.traces()
+        if flip and any(tr["command"] == flip[0] and tr["target"] == flip[1] for tr in traces):      # the flipping task did run
+            eff_kinds = dict(kinds); eff_kinds[(flip[2], flip[3])] = flip[4]
         case = {"cfg": cfg, "args": args, "kinds": {"%s|%s" % k: v for k, v in kinds.items() if v != "exec"}, "script": script, "mode": mode}
         if forced: case["forced"] = forced
-        evaluate(ctx, focus, case, cfg, rr, rc, out, err, traces, expected_cmds, selected, sel_groups, kinds, codes, fou, mode, timing)
+        evaluate(ctx, focus, case, cfg, rr, rc, out, err, traces, expected_cmds, selected, sel_groups, eff_kinds, codes, fou, mode, timing)
     finally:
         rr.close()
 
@@ -294,6 +317,11 @@ def run(ctx, scale, focus):
     if os.path.isdir(cdir):
         for f in sorted(os.listdir(cdir)):
             run_case(ctx, random.Random(json.load(open(os.path.join(cdir, f)))["case_seed"]), focus)
+    if focus == "C04":
+        # an executable that simply takes long (tens of seconds, far beyond any internal interval): what depends on it still waits
+        long_cfg = {"targets": [{"path": "slowlib"}, {"path": "app", "uses": ["slowlib"]}, {"path": "tool"}], "sequences": SEQS}
+        for ms in ([21500] if ctx.quick() else [21500, 31000, 61000]):
+            run_case(ctx, random.Random(ctx.rng.getrandbits(32)), focus, forced={"cfg": long_cfg, "mode": "all", "named": [], "sleep_ms": {"build|slowlib": ms, "lint|slowlib": 0, "test|slowlib": 0}, "plain": True})
     if focus == "C06":
         for point, ms in (("compressor_between_shutdowns", 40), ("compressor_before_join", 60), ("compressor_between_shutdowns", 5)) * (1 if ctx.quick() else 8):
             forced_delay_case(ctx, ctx.rng, point, ms, ctx.rng.choice([3, 4, 5]))
